@@ -11,6 +11,7 @@ import PrioModel.Flp
 import PrioModel.Prio3
 import PrioModel.Ctor
 import PrioModel.Par
+import PrioModel.Prio2
 
 /-! Line-protocol driver: one request per line on stdin, one answer per line on stdout. -/
 open Prio
@@ -749,6 +750,49 @@ def handleC14 (args : List String) : String :=
     | _, _, _ => "bad-op"
   | _ => "bad-op"
 
+def handleC19 (args : List String) : String :=
+  withField "FP32" fun q sz =>
+    let C := fieldCtx "FP32" q
+    let vec (h : String) : Option (List (Fin (q + 1))) := hexVec q sz h
+    match args with
+    | ["plen", d] => match d.toNat? with
+      | some d => toString (Prio2.proofLength d)
+      | none => "bad-op"
+    | ["proof", data, f0, g0] =>
+      match vec data, vec f0, vec g0 with
+      | some d, some [f], some [g] =>
+        match Prio2.constructProof C d f g with
+        | .ok p => "ok " ++ toHex (encodeFieldVec sz p)
+        | .err _ => "err"
+        | .panic => "panic"
+      | _, _, _ => "bad-op"
+    | ["vmsg", dim, evalAt, share, first] =>
+      match dim.toNat?, vec evalAt, vec share with
+      | some d, some [r], some sh =>
+        match Prio2.verifyInitWithQueryRand C d r sh (first == "1") with
+        | .ok (v, st) => s!"ok {toHex (encodeFieldVec sz [v.fR, v.gR, v.hR])} {toHex (encodeFieldVec sz st)}"
+        | .err => "err"
+        | .panic => "panic"
+      | _, _, _ => "bad-op"
+    | ["evalat", inputLen, stream] =>
+      match inputLen.toNat?, parseHex stream with
+      | some n, some bytes =>
+        let arr := bytes.toArray
+        let S : Stream := fun i => arr.getD i 511
+        match Prio2.chooseEvalAt C S (q + 1) (fieldMask "FP32") sz n 64 (PrngState.init S sz 0) with
+        | some (e, _) => "ok " ++ toHex (encodeFieldVec sz [e])
+        | none => "none"
+      | _, _ => "bad-op"
+    | ["valid", v1, v2] =>
+      match vec v1, vec v2 with
+      | some [a, b, c], some [d, e, f] => toString (Prio2.isValidShare ⟨a, b, c⟩ ⟨d, e, f⟩)
+      | _, _ => "bad-op"
+    | ["leader", proof, helper] =>
+      match vec proof, vec helper with
+      | some p, some h => "ok " ++ toHex (encodeFieldVec sz (Prio2.leaderShare p h))
+      | _, _ => "bad-op"
+    | _ => "bad-op"
+
 def handle (line : String) : String :=
   match line.trimAscii.toString.splitOn " " with
   | "fp" :: rest => handleFp rest
@@ -756,6 +800,7 @@ def handle (line : String) : String :=
   | "p3" :: rest => handleP3 rest
   | "c16" :: rest => handleC16 rest
   | "c14" :: rest => handleC14 rest
+  | "c19" :: rest => handleC19 rest
   | "flp" :: op :: rest => handleFlp op rest
   | "poly" :: op :: rest => handlePoly op rest
   | "idpf" :: rest => handleIdpf rest
